@@ -202,7 +202,37 @@ def verify_machine(res, name, path, wd, base, cfile, ctext, index, root):
     parts = verify_step(base, wd, harness, d2, l_inv, l_sel, l_goto, l_label, lc, n, t, NB, TB, name)
     res['step'] = {k: slim(v) for k, v in parts.items()}
     res['nested_history'] = nested
+    if nested and name.startswith('corpus/'):
+        # bounded stand-in for the hand-written nested-history charts: REACH_K real steps from initialisation
+        res['step']['R'] = slim(verify_reach(base, wd, harness, defines, l_goto, l_label, n, t, NB, TB, name))
     return res
+
+
+def verify_reach(base, wd, harness, defines, l_goto, l_label, n, t, NB, TB, name, k=9):
+    log = os.path.join(wd, base + '.reach.log')
+    open(log, 'w').close()
+    a = os.path.join(wd, base + '.reach.a.gb')
+    b = os.path.join(wd, base + '.reach.b.gb')
+    ok, msg = _goto_cc('h_reach', a, dict(defines, REACH_K=str(k)), harness, log)
+    if not ok:
+        return _err(base + '.reach', 'goto-cc: ' + msg)
+    gid, ids = _goto_line_ids(a, (l_goto, l_label, (l_label or 0) + 1), log)
+    if gid is None:
+        return _err(base + '.reach', 'loop map out of date: DEQUEUE_EVENT back-edge not found')
+    # three passes of the DEQUEUE_EVENT loop per step: the empty spontaneous pass, one ignored event, the event taken
+    rc, o, e, dt = cbmcrun.run(['goto-instrument', '--unwindset', 'uscxml_step.%s:3' % gid, '--no-unwinding-assertions', a, b], 600, 12, log=log)
+    if rc != 0:
+        return _err(base + '.reach', 'cutting the goto loop failed: ' + (e + o)[-300:])
+    K = max(n, t, 8 * NB, 8 * TB) + 4
+    job = cbmcrun.Job(base + '.reach', [b], 'h_reach', wd, dfcc=False,
+                      cbmc_flags=['--drop-unused-functions', '--unwind', str(max(K, 40)), '--unwinding-assertions'],
+                      timeout=2400, mem_gb=16, meta={'doc': name, 'part': 'R', 'REACH_K': k})
+    job.prebuilt = True
+    r = cbmcrun.verify(job)
+    for f in (a, b):
+        if os.path.exists(f) and not os.environ.get('VERIF_KEEP'):
+            os.remove(f)
+    return r
 
 
 def nested_history(info, facts):
